@@ -125,11 +125,18 @@ def class_names(t):
     return ('?',)
 
 
-def _optional_defaults(fn, skip=1):
-    """{name: constant} for the parameters after the first `skip` ones that have a constant default"""
+def _optional_defaults(fn, skip=1, mod=None):
+    """{name: constant} for the parameters after the first `skip` ones that have a constant default (or, given the module, a module-level
+    `NAME = object()` "not given" marker as default: an alias / opt-in keyword no existing caller passes)"""
     a = fn.args
     pos = a.posonlyargs + a.args
     out = {}
+    if mod is not None:
+        for arg_, d in list(zip(pos[len(pos) - len(a.defaults):], a.defaults)) + [(x, dv) for x, dv in zip(a.kwonlyargs, a.kw_defaults) if dv is not None]:
+            if isinstance(d, ast.Name) and (arg_ in a.kwonlyargs or pos.index(arg_) >= skip):
+                cv = mod.consts.get(d.id)
+                if isinstance(cv, ast.Call) and isinstance(cv.func, ast.Name) and cv.func.id == 'object' and not cv.args:
+                    out[arg_.arg] = ('global', d.id)
     for arg_, d in zip(pos[len(pos) - len(a.defaults):], a.defaults):
         if pos.index(arg_) >= skip and isinstance(d, ast.Constant):
             out[arg_.arg] = C(d.value)
@@ -416,7 +423,7 @@ def rule_R_NONE(ctx, repo):
             tolp = ('param', init.node.args.args[1].arg)
             ieng = Engine(RModel(m, cls=ci), unroll=1)
             iparams = {init.node.args.args[0].arg: SELF}
-            iparams.update(_optional_defaults(init.node, skip=2))      # opt-in parameters of the decorator at their defaults
+            iparams.update(_optional_defaults(init.node, skip=2, mod=m))      # opt-in parameters of the decorator at their defaults
             iouts = [o for o in ieng.run_function(init.node, {}, params=iparams) if o.kind == RETURN]
             ok = bool(iouts)
             facfn = m.functions.get(fac)
@@ -437,6 +444,25 @@ def rule_R_NONE(ctx, repo):
                     for k_ in call_[3]:
                         good = good and k_[0] == 'kw' and facdef.get(k_[1]) == k_[2]
                 ok = ok and good
+        # an alias / second spelling of the tolerance cannot use None as its "not given" marker: tol=None is a value of its own (rounding switched off)
+        if init is not None and len(init.node.args.args) >= 2:
+            a_ = init.node.args
+            first_ = a_.args[1].arg
+            opt_none = [x.arg for x, dv in list(zip(a_.args[len(a_.args) - len(a_.defaults):], a_.defaults)) + [(x, dv) for x, dv in zip(a_.kwonlyargs, a_.kw_defaults) if dv is not None]
+                        if isinstance(dv, ast.Constant) and dv.value is None and x.arg != first_]
+            for x in ast.walk(init.node):
+                if isinstance(x, ast.If) and isinstance(x.test, ast.Compare) and len(x.test.ops) == 1 and isinstance(x.test.ops[0], (ast.Is, ast.IsNot)) \
+                        and isinstance(x.test.left, ast.Name) and x.test.left.id in opt_none and isinstance(x.test.comparators[0], ast.Constant) \
+                        and x.test.comparators[0].value is None:
+                    arm = x.body if isinstance(x.test.ops[0], ast.IsNot) else x.orelse
+                    takes = any(isinstance(y, ast.Assign) and any(isinstance(t, ast.Name) and t.id == first_ for t in y.targets)
+                                and any(isinstance(z, ast.Name) and z.id == x.test.left.id for z in ast.walk(y.value)) for st_ in arm for y in ast.walk(st_))
+                    ctx.ob('R-NONE', '%s.__init__: `%s` is not taken for "not given" when it is None' % (cname, x.test.left.id), not takes)
+                    if takes:
+                        ctx.fail('R-NONE', init.qual, '%s=None read as "not given"' % x.test.left.id,
+                                 '%s.__init__ takes the tolerance from `%s` unless it is None: None is a tolerance of its own (rounding switched off), so a decorator built with '
+                                 '%s=None silently rounds to the default number of digits - calls that differ in their decimals share an entry, and its copy / pickle does too'
+                                 % (cname, x.test.left.id, x.test.left.id), '%s:%d' % (m.rel, x.lineno))
         ctx.ob('R-NONE', '%s.__init__' % cname, ok)
         if not ok:
             ctx.fail('R-NONE', (init.qual if init is not None else ci.qual), 'wiring', '%s.__init__ does not set __round__ = %s(tol) with .tol = tol' % (cname, fac),
